@@ -25,6 +25,24 @@ for rnd in range(2):
     L += ["locked", "new 1 0", "q A 1 0", "qn %d" % (base + 257 - rnd), "qx %d" % (base + 257 - rnd), "locked", "rm e0" if rnd == 0 else "rm e1"]
 w("C09-lock-depth.ops", L)
 
+# C09: locks held only in one 64-bit word of the lock mask (bits 0-63, 64-127, 128-191, 192-255)
+L = ["# 256 queries open; all are closed except those whose lock bit lies in one mask word: the world is still",
+     "# locked and structural operations are refused; after closing the rest it is unlocked again",
+     "world 4 0 256", "reg b8", "new 1 0", "new 1 0"]
+base = 0
+for word in range(4):
+    for i in range(256):
+        L.append("q A 1 0")
+    for i in range(256):
+        if not (64 * word <= i < 64 * word + 64):
+            L.append("qx %d" % (base + i))
+    L += ["locked", "new 1 0", "rm e0", "add e0 0", "reset", "stats"]
+    for i in range(64 * word, 64 * word + 64):
+        L.append("qx %d" % (base + i))
+    L += ["locked", "new 1 0", "stats"]
+    base += 256
+w("C09-lock-words.ops", L)
+
 # C16: the 257th component type is refused and the registry is unchanged
 L = ["# 256 component types can be registered and used; the 257th registration panics and leaves the registry as it was",
      "world 4 0 256"]
